@@ -185,9 +185,23 @@ type stateRec struct {
 
 type ctxKey struct{}
 
-type jobErr struct{ i int }
+type jobErr struct {
+	i     int
+	loose bool // Is reports true for every error of another type (as an error whose Is compares a classification that foreign errors all share)
+}
 
 func (e *jobErr) Error() string { return fmt.Sprintf("job %d failed", e.i) }
+
+// Is makes a loose error match any error that is not a *jobErr - the way an
+// error type does whose Is compares status codes and maps every foreign error
+// to one default code. errors.Is(looseErr, anyPlainSentinel) is then true.
+func (e *jobErr) Is(target error) bool {
+	if !e.loose {
+		return false
+	}
+	_, same := target.(*jobErr)
+	return !same
+}
 
 // Progress is advanced by every stamped event of the harness (body start/end,
 // Enqueue and Wait call/return, cancel): the watchdog reads it.
@@ -414,7 +428,7 @@ func newExec(sc *Scenario, quiet bool) *Exec {
 	}
 	x.recs = make([]jobRec, len(sc.Jobs))
 	for i := range x.recs {
-		x.recs[i].err = &jobErr{i}
+		x.recs[i].err = &jobErr{i: i, loose: sc.LooseErrs && i%3 == 1}
 	}
 	x.marker, x.otherMarker = new(int), new(int)
 	root := context.WithValue(context.Background(), ctxKey{}, x.marker)
